@@ -143,6 +143,25 @@ partial def scenario (st : Stats) (d0 : Daemon) (sc : Scen) : List String → IO
     | none => disagree st s!"kind=S in={sc.inh} unparsable files"
   | _ => disagree st s!"kind=S in={sc.inh} truncated (daemon died or timed out)"
 
+/-- the `C <chan> <delnum> <fn> <sender> <recip>` groups of a D line: per channel, in order of appearance -/
+def parseDeliveries : List String → Option (List (Nat × Bytes × Bytes × Bytes))
+  | [] => some []
+  | "C" :: ch :: _dn :: fnh :: sh :: rh :: rest =>
+    match ch.toNat?, unhex fnh, unhex sh, unhex rh, parseDeliveries rest with
+    | some c, some fnm, some s, some r, some l => some ((c, fnm, s, r) :: l)
+    | _, _, _, _, _ => none
+  | _ => none
+
+/-- the deliveries a preprocessed message must cause on one channel: one per record of the channel file, in
+order, each with the sender `f sender recip` -/
+def wantDeliveries (f : Bytes → Bytes → Bytes) (fnm sender : Bytes) (chanfile : Bytes) : List (Bytes × Bytes × Bytes) :=
+  (chunks chanfile).map (fun r => (fnm, f sender (r.drop 1), r.drop 1))
+
+def senderOf (todo : Bytes) : Bytes :=
+  match (chunks todo).find? (fun r => r.head? == some 70) with
+  | some r => r.drop 1
+  | none => []
+
 def handle (ref : IO.Ref Cur) (st : Stats) (line : String) : IO Stats := do
   let fs := fields line
   let st := { st with cases := st.cases + 1 }
@@ -276,6 +295,42 @@ def handle (ref : IO.Ref Cur) (st : Stats) (line : String) : IO Stats := do
       if !good || cd != "1" then st ← oracleFail st s!"kind=B in={sh} c={cs} impl={rs} casefold_equal={cd} stdin=B,{cs},{sh}"
       return st
     | _, _, _ => disagree st s!"unparsable line {line}"
+  | "D" :: a :: b :: c :: d :: e :: started :: todoh :: ids :: dels =>
+    match filesOf [a, b, c, d, e], unhex todoh, ids.toNat?, parseDeliveries dels with
+    | some f, some todo, some id, some obs =>
+      let inh := ",".intercalate ["D", a, b, c, d, e, "1", todoh]
+      let mut st := st.bump "D"
+      let fnm := fmtNat (id % Nq.Gen.auto_split) ++ 47 :: fmtNat id
+      let sender := senderOf todo
+      let obsOn (c : Nat) := (obs.filter (fun x => x.1 == c)).map (fun x => x.2)
+      match start f with
+      | some dm =>
+        if started != "1" then return (← disagree st s!"kind=D in={inh} the daemon did not start (model: starts)")
+        -- model: todo_do under the start-up configuration, then one comm_write per record of each channel file
+        match todoDo dm.cfg.htLookups dm.cfg.env todo with
+        | some o =>
+          if obsOn 0 != wantDeliveries senderadd fnm sender o.loc || obsOn 1 != wantDeliveries senderadd fnm sender o.rem then
+            st ← disagree st s!"kind=D in={inh} deliveries differ from the model: local {(obsOn 0).length}/{(chunks o.loc).length} remote {(obsOn 1).length}/{(chunks o.rem).length} stdin={inh}"
+        | none => if !obs.isEmpty then st ← disagree st s!"kind=D in={inh} deliveries for a message the model refuses stdin={inh}"
+        -- oracle: the documented routing (specTodo) and the documented VERP rule (verpSpec) on what the daemon sent
+        match specStart f with
+        | some sp =>
+          if cfgOk sp.cfg then
+            match specTodo sp.cfg todo with
+            | some o =>
+              if obsOn 0 != wantDeliveries verpSpec fnm sender o.loc || obsOn 1 != wantDeliveries verpSpec fnm sender o.rem then
+                st ← oracleFail st s!"kind=D in={inh} local={(obsOn 0).map (fun x => hex x.2.1 ++ ">" ++ hex x.2.2)} remote={(obsOn 1).map (fun x => hex x.2.1 ++ ">" ++ hex x.2.2)} stdin={inh}"
+              else
+                st := (List.range obs.length).foldl (fun s _ => s.bump "D_deliveries") st
+                if obs.any (fun x => x.2.2.1 != sender) then st := st.bump "D_verp_expanded"
+            | none => if !obs.isEmpty then st ← oracleFail st s!"kind=D in={inh} deliveries for a message that must be refused stdin={inh}"
+          else st := st.bump "D_oracle_skipped_dup"
+        | none => pure ()
+        return st
+      | none =>
+        if started != "0" then disagree st s!"kind=D in={inh} the daemon started (model: refuses)"
+        else return st.bump "D_refused"
+    | _, _, _, _ => disagree st s!"unparsable line {line}"
   | "S" :: a :: b :: c :: d :: e :: started :: _n :: steps =>
     match filesOf [a, b, c, d, e] with
     | some f =>
